@@ -285,6 +285,17 @@ def compare_sequence(cases, epg, tol1=1e-8, tol2=1e-7):
                 sig, jac, hes = seq.hessian(V)(**case["values"])
                 sig0 = seq.signal(**case["values"])
                 sig1, jac1 = seq.jacobian(V)(**case["values"])
+                # rectangular request: two different (sub)lists in arbitrary order, derived from the case itself
+                r2 = np.random.default_rng(int(round(sum(case["values"].values()) * 1000)) + len(case["program"]))
+                rect = None
+                if V:
+                    V1 = [V[i] for i in r2.permutation(len(V))[: int(r2.integers(1, len(V) + 1))]]
+                    V2 = [V[i] for i in r2.permutation(len(V))[: int(r2.integers(1, len(V) + 1))]]
+                    if r2.random() < 0.3:   # 'magnitude': the signal itself / first derivatives / zero
+                        (V1 if r2.random() < 0.5 else V2).insert(int(r2.integers(0, 2)), "magnitude")
+                    _, jr, hr = seq.hessian(V1, V2)(**case["values"])
+                    rect = (V1, V2, np.asarray(jr).reshape(-1), np.asarray(hr).reshape(len(V1), len(V2)))
+                case["rect"] = rect
         except Exception as exc:
             expect.append(("error", repr(exc)))
             continue
@@ -327,6 +338,18 @@ def compare_sequence(cases, epg, tol1=1e-8, tol2=1e-7):
                 exp = j2[diffc.pair(a, b)][n, 0]
                 if abs(H[i, j] - exp) > tol2 * max(1, abs(exp)):
                     problems.append((f"hessian [{a},{b}]", abs(H[i, j] - exp), complex(H[i, j]), complex(exp)))
+        rect = case.pop("rect", None)
+        if rect is not None:
+            V1, V2, jr, hr = rect
+            M = "magnitude"
+            for i, a in enumerate(V1):
+                exp = f0 if a == M else j1[a][n, 0]
+                if abs(jr[i] - exp) > tol1 * max(1, abs(exp)):
+                    problems.append((f"hessian({V1},{V2}): jacobian [{a}]", abs(jr[i] - exp)))
+                for j, b in enumerate(V2):
+                    exp = 0.0 if (a == M and b == M) else (j1[b][n, 0] if a == M else (j1[a][n, 0] if b == M else j2[diffc.pair(a, b)][n, 0]))
+                    if abs(hr[i, j] - exp) > tol2 * max(1, abs(exp)):
+                        problems.append((f"hessian({V1},{V2}) entry [{a},{b}]", abs(hr[i, j] - exp), complex(hr[i, j]), complex(exp)))
         if problems:
             dis.append({"case": ci, "kind": "sequence-vs-jets", "problems": problems, "input": case,
                         "expected_by": "Model.Jet with parameter jets from the harness's own forward-mode AD of the expressions"})
